@@ -117,7 +117,7 @@ PLANS = {
     "C11": plan(["C11_OnlyVotersCampaign", "C11_OnlyVotersLead", "C11_PromoteAfterRound", "C11_StopOnlyWhenRemoved", "C11_DemotedLeaderStepsDown", "C06_MajorityDurable"],
                 [CONF_Q12, CONF_Q21], [CONF_T], ["G_NonVoterNoElection", "G_PromoteAfterRound", "G_StepDownWhenDemoted", "G_MajorityOfVoters", "FixD14"], sim=("conf",)),
     "C09": plan(["C09_SnapshotCommitted", "C09_NoViewInvalidation", "C03_FsmIsCommittedPrefix", "C03_FsmNotAhead"], [SNAP_Q], [SNAP_T], ["FixD5", "FixD11", "FixD19"], sim=("snap",), fuzz=("snap", "part")),
-    "C12": plan(["C12_LabelOK"], [SNAP_Q], [SNAP_T], ["FixD4"], sim=("snap", "conf")),
+    "C12": plan(["C12_LabelOK"], [SNAP_Q], [SNAP_T], ["FixD4", "FixD20"], sim=("snap", "conf"), fuzz=("snap", "conf", "fairconf")),
     "C19": plan(["C19_Ordered", "C19_LatestIsNewest", "C19_Monotone"], [REPL_Q3, REPL_Q2], [REPL_T3, REPL_T2], ["G_ConsistencyCheck", "G_FollowerOwnTerm", "FixD19"], sim=("core", "conf"), fuzz=("core", "conf", "batch", "part")),
     # C10: crash at every hook point inside the handlers (image of the directory at that instant), restart on the image, rejoin
     "C10": plan(["C10_RestartOK", "C01_ElectionSafety", "C02_CommittedAgree", "C02_LeaderCompleteness", "C02_CommittedStable",
@@ -129,10 +129,10 @@ PLANS = {
                 fuzz=("all", "snap", "fairconf"), runs=(128, 1600)),
     # C16: leadership transfer (task, target choice, timeout-now RPC, timers); fair continuation after transfers (xferconf)
     "C16": plan(["C16_SuccessMeansSteppedDown", "C16_TargetEligible", "C16_NoNewEntriesDuringTransfer", "C01_ElectionSafety", "C17_Converges"],
-                [XFER_Q1, XFER_Q2], [XFER_T], ["G_XferCaughtUp", "G_XferBlocksEntries", "G_XferSuccessOnHigherTerm"], sim=("xfer",),
+                [XFER_Q1, XFER_Q2], [XFER_T], ["G_XferCaughtUp", "G_XferBlocksEntries", "G_XferSuccessOnHigherTerm", "D21"], sim=("xfer",),
                 fuzz=("xfer", "xferconf"), runs=(128, 1600)),
     # C17: (a) leader stickiness as an action property; (b) convergence under a fair, fault-free continuation of random fault histories
-    "C17": plan(["C17_LeaderStickiness", "C17_Converges"], [ELECT_Q], [ELECT_T], ["FixD1", "G_LeaderKnown"], sim=("core",),
+    "C17": plan(["C17_LeaderStickiness", "C17_Converges"], [ELECT_Q], [ELECT_T], ["FixD1", "G_LeaderKnown", "D21"], sim=("core",),
                 fuzz=("fair", "fairconf"), runs=(128, 1600)),
 }
 
